@@ -132,9 +132,13 @@ def generate(reg, key, budget=None):
                 fv = VFunc(fn, mod, closure_env, key.split(":")[1], cls)
                 a = fn.args
                 pos = [vals[p.arg] for p in a.posonlyargs + a.args]
-                if a.vararg:
-                    pos += list(vals[a.vararg.arg].items)
                 kw = {p.arg: vals[p.arg] for p in a.kwonlyargs}
+                if a.vararg:
+                    va = vals[a.vararg.arg]
+                    if getattr(va, "items", None) is not None:
+                        pos += list(va.items)
+                    else:
+                        kw["__vararg__"] = va
                 outcome = "return"
                 try:
                     result = it.run_body(fv, pos, kw, fn)
